@@ -1,4 +1,141 @@
-(* C09 — tail calls are free and invisible (statements; proofs in Proofs/RefSemTcoProofs.v). *)
+(* C09 — tail calls are free and invisible.
+   Model: Model/RefSemTco.v (eval/apply = the reference semantics without the optimisation,
+   eval_tco/apply_tco/tloop = the self-tail-call jump of generator.go:GenerateCallBySymbol).
+   Proofs: Proofs/RefSemTcoProofs.v.
+
+   Side condition of invisibility.  The jump is chosen by NAME.  The strict run of the model
+   (first argument true) checks at every self tail call it reaches that the name resolves,
+   in the environment of the call, to the very closure that is running; when it does not, the
+   run stops with the verdict SShadow.  [no_self_shadow p] := the strict run of p does not end
+   with that verdict (second component of eval_program_tco = false): no executed self tail call
+   found its own name rebound (by the body: let, def, set, a parameter; or from outside while an
+   alias still runs the old body).  This is exactly what the finding tco-by-name violates. *)
 From Coq Require Import ZArith List.
-Require Import ZV.Model.RefSemTco.
+Require Import ZV.Model.RefSemTco ZV.Proofs.RefSemTcoProofs.
 Import ListNotations.
+Open Scope Z_scope.
+
+(* tail_invisible, for ALL programs of the core and all fuel: a conclusive run of the optimising
+   model (not out of fuel, no_self_shadow) is a run of the reference semantics: same value
+   snapshot / error class, same trace. *)
+Theorem tail_invisible : forall n failat forms o h,
+  eval_program_tco true false n failat forms = (o, false, h) -> o_res o <> Fuel ->
+  exists k, eval_program_cfg k failat forms = o.
+Proof. exact tail_invisible_proof. Qed.
+Print Assumptions tail_invisible.
+
+(* the same with the FINAL STORE: every frame (so what every closure created in an earlier
+   iteration observes), every array, the trace and the failure counter are EQUAL (the model never
+   removes a frame, both runs allocate the same frame ids: no renaming is needed). *)
+Theorem tail_invisible_store : forall n failat forms r s',
+  tev_begin (eval_tco true false n None) false [O] forms (init_store failat) = (r, s') ->
+  r <> Fuel -> r <> Sig SShadow ->
+  exists k, ev_begin (eval k) [O] forms (init_store failat) = (r, s').
+Proof. exact tail_invisible_run_proof. Qed.
+Print Assumptions tail_invisible_store.
+
+(* and for any call of any function value in any store *)
+Theorem tail_invisible_apply : forall n f args s r s',
+  apply_tco true false n f args s = (r, s') -> r <> Fuel -> r <> Sig SShadow ->
+  exists k, apply k f args s = (r, s').
+Proof. exact tail_invisible_apply_proof. Qed.
+Print Assumptions tail_invisible_apply.
+
+(* PARTIAL: the converse (every conclusive reference run is matched by the optimising model, or
+   the strict verdict is SShadow:
+     forall k failat forms o, eval_program_cfg k failat forms = o -> o_res o <> Fuel ->
+       exists n b h, eval_program_tco true false n failat forms = (o, b, h) \/ b = true)
+   is not proved (it needs the re-association of nested activations into the loop); the check
+   compares the two extracted evaluators on every generated case instead. *)
+
+(* without the side condition the statement is false: the by-name jump (strict = false, what the
+   real code does) gives 5 where the reference semantics gives 42; the strict run names it. *)
+Definition shadow_witness : list expr :=
+  [EDefn 100 [101] None
+     [ELet false [(100, EFn [102] None [EInt 42])]
+        [ECond [(ECall (EVar 5) [EVar 101; EInt 0], ECall (EVar 100) [EInt 0])] (EInt 5)]];
+   ECall (EVar 100) [EInt 1]].
+
+Theorem tail_invisible_refuted_without_side_condition :
+  exists forms,
+    o_res (fst (fst (eval_program_tco false false 50 0 forms))) = Done (SvInt 5) /\
+    o_res (eval_program_cfg 50 0 forms) = Done (SvInt 42) /\
+    snd (fst (eval_program_tco true false 50 0 forms)) = true.
+Proof. exists shadow_witness. vm_compute. repeat split. Qed.
+Print Assumptions tail_invisible_refuted_without_side_condition.
+
+(* tail_space_constant, over the explicit activation counter (count = true), for every closure:
+   if every single run of the body that starts at depth d with the high-water mark below B ends
+   at depth d with the mark below B, then so does the loop of self tail calls, for ANY number of
+   iterations (n bounds them): the mark of n iterations is that of one. *)
+Theorem tail_space_constant : forall strict nm ps rest body cenv (d B : nat),
+  (forall m env s0 r0 s0', depth s0 = d -> (hwm s0 <= B)%nat ->
+     tev_begin (eval_tco strict true m (self_of (VClos nm ps rest body cenv))) true env body s0 = (r0, s0') ->
+     depth s0' = d /\ (hwm s0' <= B)%nat) ->
+  forall n binds s r s', depth s = d -> (hwm s <= B)%nat ->
+    tloop strict true n (VClos nm ps rest body cenv) binds s = (r, s') ->
+    depth s' = d /\ (hwm s' <= B)%nat.
+Proof. exact tail_space_constant_proof. Qed.
+Print Assumptions tail_space_constant.
+
+(* tail_positions: in_tail_position (Proofs file) is the inductive closure of: last form of
+   begin / every arm body and the default of cond / last body form of let, letseq, newScope /
+   last arm of and, or.  The evaluator hands its flag to exactly these sub-forms and false to
+   all the others (one step; nesting is the induction of in_tail_position): *)
+Theorem tail_flag_rules : forall strict count n self tl env,
+  let ev := eval_tco strict count n self in
+  (forall es, eval_tco strict count (S n) self tl env (EBegin es) = tev_begin ev tl env es) /\
+  (forall arms d, eval_tco strict count (S n) self tl env (ECond arms d) = tev_cond ev tl env arms d) /\
+  (forall es, eval_tco strict count (S n) self tl env (EAnd es) = tev_and ev tl env es) /\
+  (forall es, eval_tco strict count (S n) self tl env (EOr es) = tev_or ev tl env es) /\
+  (forall es s, eval_tco strict count (S n) self tl env (EScope es) s =
+                let '(f, s1) := push_frame s in tev_begin ev tl (f :: env) es s1) /\
+  (forall bs body s, eval_tco strict count (S n) self tl env (ELet false bs body) s =
+                let '(f, s1) := push_frame s in
+                (vs <- ev_list (ev false) (f :: env) (map snd bs) ;;
+                 _ <- bind_all f (rev (combine (map fst bs) vs)) ;; tev_begin ev tl (f :: env) body) s1) /\
+  (forall bs body s, eval_tco strict count (S n) self tl env (ELet true bs body) s =
+                let '(f, s1) := push_frame s in
+                (_ <- ev_letseq (ev false) f (f :: env) bs ;; tev_begin ev tl (f :: env) body) s1) /\
+  (forall es, eval_tco strict count (S n) self tl env (EArr es) = (vs <- ev_list (ev false) env es ;; alloc_arr vs None)) /\
+  (forall x e, eval_tco strict count (S n) self tl env (EDef x e) = (v <- ev false env e ;; _ <- bind (hd O env) x v ;; ret v)) /\
+  (forall lbl i t st body s, eval_tco strict count (S n) self tl env (EFor lbl i t st body) s =
+                let '(f, s1) := push_frame s in
+                (_ <- no_loop_sig EUnspec (ev false (f :: env) i) ;; for_loop (ev false) n (f :: env) lbl t st body) s1) /\
+  (forall f args, is_self self tl f (length args) = None ->
+                eval_tco strict count (S n) self tl env (ECall f args) = call_expr (ev false) (apply_tco strict count n) env f args).
+Proof. exact tail_flag_rules_proof. Qed.
+Print Assumptions tail_flag_rules.
+
+Theorem tail_begin_last : forall ev tl env es l s,
+  tev_begin ev tl env (es ++ [l]) s =
+  match es with [] => ev tl env l s | _ => (_ <- tev_begin ev false env es ;; ev tl env l) s end.
+Proof. exact tev_begin_last. Qed.
+Print Assumptions tail_begin_last.
+
+Theorem self_call_rule : forall self tl f nargs nm c,
+  is_self self tl f nargs = Some (nm, c) <->
+  tl = true /\ self = Some (nm, c) /\ f = EVar nm /\ arity_fits c nargs = true.
+Proof. exact self_call_rule_proof. Qed.
+Print Assumptions self_call_rule.
+
+(* ---- non-vacuity (tests, not theorems): the loop f(n) = if n == 0 then 0 else f(n-1) ---- *)
+Definition loop_prog (tailcall : bool) (n : Z) : list expr :=
+  [EDefn 100 [101] None
+     [ECond [(ECall (EVar 8) [EVar 101; EInt 0], EInt 0)]
+        (if tailcall then ECall (EVar 100) [ECall (EVar 2) [EVar 101; EInt 1]]
+         else ECall (EVar 1) [EInt 0; ECall (EVar 100) [ECall (EVar 2) [EVar 101; EInt 1]]])];
+   ECall (EVar 100) [EInt n]].
+
+Example loop_value_40 : o_res (fst (fst (eval_program_tco true false 200 0 (loop_prog true 40)))) = Done (SvInt 0)
+                        /\ snd (fst (eval_program_tco true false 200 0 (loop_prog true 40))) = false.
+Proof. vm_compute. split; reflexivity. Qed.
+Example loop_hwm_1 : snd (eval_program_tco false true 200 0 (loop_prog true 1)) = 1%nat.
+Proof. vm_compute. reflexivity. Qed.
+Example loop_hwm_40 : snd (eval_program_tco false true 200 0 (loop_prog true 40)) = 1%nat.
+Proof. vm_compute. reflexivity. Qed.
+Example nontail_hwm_40 : snd (eval_program_tco false true 400 0 (loop_prog false 40)) = 41%nat.
+Proof. vm_compute. reflexivity. Qed.
+Example in_tail_position_nested :
+  in_tail_position (ECond [(EBool true, EBegin ([EInt 1] ++ [EAnd ([EBool true] ++ [EVar 7])]))] ENil) (EVar 7).
+Proof. apply (tp_cond_arm [] (EBool true) _ [] ENil). apply tp_begin. apply tp_and. apply tp_here. Qed.
